@@ -108,6 +108,9 @@ class UpdateWatch:
             mon.count("predict_all_bad_shape")
             return
         m = mus.shape[1]
+        # the reference prediction is made on ALL designs, the library's on the updated subset: a gpytorch model answers the two
+        # batch compositions with values that differ in the 8th digit (observed 1e-8 relative, thorough seed 1), a stub exactly
+        rt = 1e-6 if type(model).__module__.startswith("vopy.models.gpytorch") else 1e-9
         sc = np.asarray(scale_in, float)
         occ: dict[int, list] = {}
         for k, i in enumerate(idx):
@@ -137,7 +140,7 @@ class UpdateWatch:
                 kind = None
                 for s_k in occ[i]:
                     L, U = mus[i] - std * s_k, mus[i] + std * s_k
-                    tol = 1e-9 * (1 + np.abs(mus[i]).max() + np.abs(std * s_k).max())
+                    tol = rt * (1 + np.abs(mus[i]).max() + np.abs(std * s_k).max())
                     if not intersect:
                         cur, kind = (L, U), "replace"
                         continue
@@ -163,8 +166,8 @@ class UpdateWatch:
                                   f"(mean {mus[i]}, std {std}, scales {occ[i]}, before [{before[i][1]},{before[i][2]}])", case)
             else:
                 s_last = occ[i][-1]
-                tol = 1e-9 * (1 + np.abs(mus[i]).max())
+                tol = rt * (1 + np.abs(mus[i]).max())
                 if np.shape(after[1]) != np.shape(mus[i]) or np.abs(after[1] - mus[i]).max() > tol \
-                        or np.abs(after[2] - covs[i]).max() > 1e-9 * (1e-300 + np.abs(covs[i]).max()) \
+                        or np.abs(after[2] - covs[i]).max() > rt * (1e-300 + np.abs(covs[i]).max()) \
                         or abs(after[3] - float(np.asarray(s_last).reshape(-1)[0])) > 1e-12 * (1 + abs(after[3])):
                     mon.violation("update:ellipsoid-not-prediction", f"{self.label}: design {i}: centre {after[1]} vs mean {mus[i]}; alpha {after[3]} vs scale {s_last}", case)
